@@ -17,6 +17,7 @@ package atpcs
 //	awaitws R       wait until the server has consumed the work-start of run R
 //	awaitwritten N  wait until N writes of the server have completed (on the unbuffered pipe: have
 //	                been read by the client)
+//	awaitexecs N    wait until N Execute calls have been started (see exec's Reissue)
 //	sleep N         wait N milliseconds
 //	open R          open the gate named R ("consumer:<run>", "write")
 //	mark N          tell the server script that the director got this far (server: expectmark N)
@@ -38,12 +39,17 @@ type DOp struct {
 	// exec only: Hold: the consumer of this run's signalsFromStep channel does not start receiving
 	// before the director opens the gate "consumer:<run>" (a caller that is slow to pick signals up)
 	Hold bool `json:"hold,omitempty"`
+	// exec only: Reissue: when this run's signalsFromStep channel is closed (the moment its result is
+	// stored) the consumer calls Execute with the same run ID again, once
+	Reissue bool `json:"reissue,omitempty"`
 }
 
 // SOp is one operation of the scripted server.
 //
 //	expect N     wait until N client messages have been consumed (cumulative)
 //	expectws R   wait until the work-start of run R has been consumed
+//	expectwsn R N / doneifn R N X  wait for the N-th work-start of run R (or the director's mark 1);
+//	             answer it if it came
 //	expectdone   wait until client-done has been consumed
 //	expectdonelong  the same, but like the real server: silent, output open, for as long as it takes
 //	             (bounded by 9 s, well beyond the director's timeout for a call)
